@@ -187,6 +187,11 @@ class Roundtrip(pipeline.Stream):
             cases.append(rand_nest(rng, rng.randint(1, 8), rng.randint(1, 8) if i % 4 else 3))
         # "__jsonclass__"-free data that looks like a descriptor elsewhere
         cases += [{"jsonclass": ["a.B", []]}, {"x": "__jsonclass__"}, ["__jsonclass__"], {"__jsonclass": 1}]
+        # non-finite floats are floats like the others: they stay floats, with their exact value (oracle only: the model's
+        # numbers are rationals)
+        inf, nan = float("inf"), float("nan")
+        cases += [inf, -inf, nan, [inf], (nan, 1.0), {"a": -inf, "b": [nan, {"c": inf}]}, [[inf, -inf], 0.0], {1.5: (inf,)},
+                  {"k": frozenset([inf])}, [1e308, inf]]
         return cases
 
     def run_impl(self, case):
@@ -232,6 +237,9 @@ class Roundtrip(pipeline.Stream):
         return None
 
     def encode(self, case, obs):
+        import math
+        if W.dv_has(case, lambda x: isinstance(x, float) and not math.isfinite(x)):
+            return None
         d = obs["dump"]
         if d[0] != "ok":
             return "(%s, %s, Ok VNone, VNone)" % (W.g_dv(obs["arg"]), W.g_outcome(d))
